@@ -113,7 +113,7 @@ def generate(rng, config):
         # (fair PRNG only: the dense fallback would enumerate for ever)
         strategy, budget = None, 0
         return {"kind": "kxor" if config == "kxor" else "kcnf",
-                "k": rng.randint(1, 3), "n": rng.choice(HUGE_N),
+                "k": rng.choice([0, 1, 2, 3]), "n": rng.choice(HUGE_N),
                 "m": rng.randint(0, 3), "planted": [], "planted_form": "list",
                 "planted_outer": "list", "klass": "CNF", "huge": True,
                 "seed_arg": rng.choice([None, 3]),
@@ -251,6 +251,17 @@ def _one_request(case, ctx, kind, ri, kw, planted):
     if case.get("huge"):
         ctx.fault("n_beyond_2^63")
         ctx.nontrivial = True
+        if k == 0:
+            # no variable is involved: one empty clause, two empty parities
+            mx0 = 1 if kind == "kcnf" else 2
+            if m > mx0:
+                if res[0] == "ok":
+                    bad("impossible-request-accepted", "max is %d" % mx0)
+                if not isinstance(res[1], ValueError):
+                    raise Violation("C13/%s/wrong-error/%s" %
+                                    (kind, exc_signature(res[1], REPO)),
+                                    "%s\n%r" % (where, res[1]))
+                return
         if res[0] == "exc":
             if isinstance(res[1], ValueError):
                 bad("possible-request-refused", "m=%d is far below the "
@@ -261,6 +272,10 @@ def _one_request(case, ctx, kind, ri, kw, planted):
         F = res[1]
         cl = [tuple(c) for c in F]
         per = 1 if kind == "kcnf" else 2 ** (k - 1)
+        if k == 0:
+            if F.number_of_variables() != n or len(cl) > m or any(cl):
+                bad("k0-shape", "%r" % (cl,))
+            return
         if F.number_of_variables() != n or len(cl) != m * per:
             bad("clause-count", "%d variables, %d clauses" %
                 (F.number_of_variables(), len(cl)))
